@@ -775,6 +775,19 @@ func (g *c08Gen) prev(s *c08Spec, lim c08Limits, foreign []c08GoEntry) (client.O
 	}
 	exp := c08ExpectedOwn(s, c08OldTime(g.rng))
 	own, mode := g.ownPrev(exp, lim.Entries-len(exp)-len(foreign))
+	// a status that has been through the API server carries the CRD's defaults: the parentRef of a Route's parent
+	// status gets group gateway.networking.k8s.io and kind Gateway when the writer left them out
+	if s.Kind <= c08TLS && g.rng.Chance(1, 2) {
+		for i := range own {
+			if own[i].Group == nil {
+				own[i].Group = c08P("gateway.networking.k8s.io")
+			}
+			if own[i].Kind == nil {
+				own[i].Kind = c08P("Gateway")
+			}
+		}
+		mode += "+server-defaults"
+	}
 	all := append(c08CopyEntries(foreign), own...)
 	g.rng.Shuffle(len(all), func(i, j int) { all[i], all[j] = all[j], all[i] })
 	obj := s.newObject()
